@@ -54,7 +54,9 @@ def templates(tier="quick"):
         ops, nb = _ops(v, js=js, faults=faults, extra=extra)
         vs = variants or [v]
         T.append(scenario("c20/%s/fresh" % name, "c20", vs, files=files, ops=ops, init=[], depth=1, tags=["output", "fresh"] + list(tags)))
-        T.append(scenario("c20/%s/built" % name, "c20", vs, files=files, ops=ops, init=[nb], depth=d, tags=["output", "built"] + list(tags)))
+        # (depth 5 of the thorough tier exceeds the memory budget for the three projects with the most outcomes per build)
+        dd = min(d, 4) if name in ("console_bytes", "console_mix", "parallel_b") else d
+        T.append(scenario("c20/%s/built" % name, "c20", vs, files=files, ops=ops, init=[nb], depth=dd, tags=["output", "built"] + list(tags)))
 
     kinds = ["line", "nonl", "big", "nul", "ansi", "esc", "multi", "none", "csi"]
     # parallel statements with every kind of output
